@@ -87,6 +87,11 @@ def _cells(tier):
         out.append({'backend': 'dict', 'n': 2, 'rounds': 1,
                     'bounce_queue': 'queue', 'opts': ['ok', 'permA', 'tempA'],
                     'kinds': ['mapping', 'permanent']})
+        # one relay slot, bounces through the queue itself: the bounce is
+        # enqueued while the failed attempt still holds the only slot
+        out.append({'backend': 'dict', 'n': 2, 'rounds': 1, 'relay_pool': 1,
+                    'bounce_queue': 'self', 'opts': ['ok', 'permA', 'permB'],
+                    'kinds': ['mapping', 'permanent']})
     else:
         out.append({'backend': 'disk', 'n': 2, 'rounds': 2,
                     'bounce_queue': 'queue', 'opts': ['ok', 'permA', 'tempA'],
